@@ -4,6 +4,7 @@ import Driver.Ecdsa
 import Driver.Hash
 import Driver.KeyGen
 import Driver.Dkg
+import Driver.Threshold
 
 /-! Model driver: one request per line on stdin, one canonical answer per line on stdout.
     First field: case id (echoed), second: operation. Unknown lines are answered `bad-op`. -/
@@ -31,6 +32,11 @@ def dispatch (op : String) (args : List String) : String :=
   | "hash" => Driver.Hash.runHash args
   | "keygen" => Driver.KeyGen.run args
   | "dkg" => Driver.Dkg.run args
+  | "th.keygen" => Driver.Threshold.keygen args
+  | "th.rec" => Driver.Threshold.reconstruct args
+  | "th.obj" => Driver.Threshold.obj args
+  | "th.groupsig" => Driver.Threshold.groupsig args
+  | "th.lin" => Driver.Threshold.lin args
   | "kmac" => Driver.Hash.runKmac args
   | "expect" => " ".intercalate (args.takeWhile (fun a => !a.startsWith "#"))
   | _ => "bad-op"
